@@ -138,19 +138,47 @@ class _NonrecursivePickler(dill.Pickler):
     #: Alias to the true :py:meth:`dill.Pickler.save`.
     realsave = dill.Pickler.save
 
+    @staticmethod
+    def _breaks_cycles_by_recursion(obj):
+        """
+        Whether dill needs its own recursion to pickle this object: a class
+        (class -> method -> ``__class__`` cell -> class), or a function that
+        can reach itself through closures (function -> cell -> function).
+        """
+        if isinstance(obj, type):
+            return True
+        if isinstance(obj, types.FunctionType):
+            seen, todo = {id(obj)}, [obj]
+            while todo:
+                for cell in todo.pop().__closure__ or ():
+                    try:
+                        inner = cell.cell_contents
+                    except ValueError:  # empty cell
+                        continue
+                    if inner is obj:
+                        return True
+                    if (
+                        isinstance(inner, types.FunctionType)
+                        and id(inner) not in seen
+                    ):
+                        seen.add(id(inner))
+                        todo.append(inner)
+        return False
+
     def _save_now(self, obj):
         """
         Really save an object whose turn has come (the queue is empty here).
 
-        Classes and functions pickled by value are saved the ordinary,
-        recursive way, together with everything below them: dill breaks the
-        reference cycles they contain (class -> method -> ``__class__`` cell
-        -> class; function -> closure cell -> function) with bookkeeping that
-        follows the recursion, so deferring their parts would save the class
-        again and again without end.  Their depth is that of a class
-        definition, not of the graph.
+        Classes pickled by value, and functions that refer to themselves
+        through their closures, are saved the ordinary, recursive way,
+        together with everything below them: dill breaks the reference cycles
+        they contain with bookkeeping that follows the recursion, so deferring
+        their parts would save them again and again without end.  Their depth
+        is that of a definition, not of the graph.  Everything else -
+        including plain functions, whose closures may well hold vertices - is
+        deferred as usual.
         """
-        if isinstance(obj, (type, types.FunctionType)):
+        if self._breaks_cycles_by_recursion(obj):
             self._recursing += 1
             try:
                 self.realsave(obj)
